@@ -119,7 +119,7 @@ var noInitPkgs = map[string]bool{
 	"os": true, "syscall": true, "runtime": true, "time": true, "net": true, "reflect": true,
 	"sync": true, "internal/poll": true, "os/signal": true, "net/http": true, "log": true,
 	"internal/godebug": true, "crypto/rand": true, "math/rand": true, "math/rand/v2": true,
-	"internal/cpu": true, "crypto/sha256": true, "crypto/internal/fips140/sha256": true, "hash/crc32": true,
+	"internal/cpu": true, "crypto/sha256": true, "crypto/internal/fips140/sha256": true,
 	"google.golang.org/grpc": true, "github.com/sirupsen/logrus": true, "github.com/containerd/log": true,
 	"github.com/prometheus/client_golang/prometheus": true, "github.com/docker/go-metrics": true,
 	"internal/testlog": true, "internal/syscall/unix": true, "golang.org/x/sys/unix": true,
@@ -419,7 +419,7 @@ func (i *interpreter) makeSlice(instr *ssa.MakeSlice, lenV, capV value) value {
 	if esz < 1 {
 		esz = 1
 	}
-	maxElems := uint64(1<<47) / uint64(esz)
+	maxElems := uint64(1<<48) / uint64(esz)
 	ok := c.And(c.Cmp(OpSle, c.BV(0, 64), lt), c.And(c.Cmp(OpSle, lt, ct), c.Cmp(OpSle, ct, c.BV(maxElems, 64))))
 	if !i.ex.Branch(ok) {
 		i.throw("makeslice: len or cap out of range")
